@@ -52,7 +52,7 @@ def run(prog, rep):
     key = cacheproto.check_eviction_and_counter(prog, rep, "C04-R5", en)
     rep.floor("C04-R5", 6)
     cacheproto.check_key_recipe(prog, rep, "C04-R2", en, key)
-    rep.floor("C04-R2", 4)
+    rep.floor("C04-R2", 3)
     cacheproto.check_store_guard(prog, rep, "C04-R3", en)
     cacheproto.check_read_guard(prog, rep, "C04-R3", en)
     rep.floor("C04-R3", 4)
@@ -64,10 +64,27 @@ def run(prog, rep):
     rep.floor("C04-R7", 5)
 
 
+def iter_source(it):
+    """Collection an iterator expression ranges over, looking through order-preserving adapters."""
+    t = it
+    while isinstance(t, tuple) and t and t[0] == "call" and isinstance(t[1], str):
+        l = t[1].rsplit("::", 1)[-1]
+        if l in ("iter", "into_iter", "enumerate", "by_ref", "cloned", "copied", "peekable") and len(t[2]) == 1:
+            t = t[2][0]
+        elif l == "zip" and len(t[2]) == 2:
+            t = t[2][0]
+        else:
+            break
+    return t
+
+
+BAD_ADAPTERS = ("rev", "skip", "step_by", "filter", "take", "chain", "skip_while", "take_while", "filter_map", "flat_map")
+
+
 def check_batch_threading(prog, rep, rule):
     drivers = ["model_checking::_model_check_multiple_trees_dirty", "model_checking::_model_check_multiple_extended_formulae_dirty",
                "analysis::analyse_formulae"]
-    eng = terms.Engine(prog, inline=False)
+    eng = terms.Engine(prog, inline=True, hooks=E.Hooks(["model_checking::", "analysis::"]))
     for path in drivers:
         f = prog.lib_fn(path)
         if f is None:
@@ -75,43 +92,46 @@ def check_batch_threading(prog, rep, rule):
             continue
         rep.functions.add(f.qual)
         s = eng.summary(f)
-        evs = [x for x in s.sites if x.kind == "call" and x.is_call_to("eval_node")]
-        ctxs = [x for x in s.sites if x.kind == "call" and x.is_call_to("from_multiple_trees")]
+        sites = s.all_sites()
+        evs = [x for x in sites if x.kind == "call" and x.is_call_to("eval_node")]
+        ctxs = [x for x in sites if x.kind == "call" and x.is_call_to("from_multiple_trees")]
         where = f"{f.file}:{f.line}"
         if len(evs) != 1 or len(ctxs) != 1:
             rep.unresolved(rule, f"{f.name}/shape", where, f"{len(evs)} eval_node and {len(ctxs)} from_multiple_trees calls (expected 1 and 1)")
             continue
         ev, cx = evs[0], ctxs[0]
         trees = cx.args[0]
-        # context created outside the evaluation loop, from the list that is iterated
         rep.check(not cx.loops, rule, f"{f.name}/one-context", cx.where(), "one context per batch (created outside the loop)",
                   "EvalContext is created inside a loop: sub-formula sharing across the batch is lost or rebuilt per formula")
-        fors = [x for x in s.sites if x.kind == "for" and s.loops.get(x.node["id"]) is not None and x.node["id"] in ev.loops]
+        fors = [x for x in sites if x.kind == "for" and (x.node.get("loop_id") in ev.loops or x.node["id"] in ev.loops)]
         node_arg = ev.args[0]
         it_ok = False
+        why = f"eval_node is applied to {sem.short(node_arg, 100)} while the context was built from {sem.short(trees, 100)}"
         for fs in fors:
             it = fs.args[0]
-            base = it
-            while base[0] == "call" and base[1].rsplit("::", 1)[-1] in ("iter", "into_iter", "enumerate", "by_ref") and len(base[2]) == 1:
-                base = base[2][0]
-            if base == trees and any(x == ("elem", it) for x in subterms(node_arg)) or (base == trees and node_arg == ("elem", it)):
+            src = iter_source(it)
+            bad = [y[1].rsplit("::", 1)[-1] for y in [it] + list(subterms(it)) if y[0] == "call" and isinstance(y[1], str) and y[1].rsplit("::", 1)[-1] in BAD_ADAPTERS]
+            elems = [y for y in [node_arg] + list(subterms(node_arg)) if y[0] == "elem" and iter_source(y[1]) == src]
+            import norm
+            expected_elem = norm.Normalizer()(("elem", src))        # elem(collect(R, B)) is B
+            if expected_elem[0] != "elem" and any(y == expected_elem for y in [node_arg] + list(subterms(node_arg))):
+                elems.append(expected_elem)
+            if src == trees and elems and not bad:
                 it_ok = True
-            for bad in ("rev", "skip", "step_by", "filter", "take", "zip", "chain", "peekable", "map"):
-                if it[0] == "call" and it[1].rsplit("::", 1)[-1] == bad:
-                    it_ok = False
-        rep.check(it_ok, rule, f"{f.name}/same-list", ev.where(), "the evaluated list is the list the context was built from, in order",
-                  f"eval_node is applied to {sem.short(node_arg, 100)} while the context was built from {sem.short(trees, 100)}")
+            if bad:
+                why = f"the evaluation loop iterates through `{bad[0]}`: not every tree is evaluated, or not in order"
+        rep.check(it_ok, rule, f"{f.name}/same-list", ev.where(), "the evaluated list is the list the context was built from, in order", why)
         ctx_arg = ev.args[2]
-        rep.check(any(x == cx.term for x in subterms(ctx_arg)) or terms.contains(ctx_arg, lambda t: t[0] == "loopvar"), rule, f"{f.name}/ctx-threaded", ev.where(),
-                  "the same context object is threaded through all evaluations", f"context argument is {sem.short(ctx_arg, 120)}")
-        # results stored in iteration order, nothing reorders
-        for x in s.sites:
+        rep.check(any(x == cx.term for x in [ctx_arg] + list(subterms(ctx_arg))) or terms.contains(ctx_arg, lambda t: t[0] == "loopvar"), rule,
+                  f"{f.name}/ctx-threaded", ev.where(), "the same context object is threaded through all evaluations", f"context argument is {sem.short(ctx_arg, 120)}")
+        for x in sites:
             if x.kind == "mcall" and x.name in REORDER:
                 rep.violation(rule, f"{f.name}/{x.name}@{x.ordinal}", x.where(), f"`{x.name}` reorders a vector in a batch driver")
-        stores = [x for x in s.sites if x.kind == "mcall" and x.name in ("push", "insert") and any(y == ev.term for a in x.args[1:] for y in subterms(a))]
-        ok_store = bool(stores) and all(ev.loops == st.loops for st in stores)
+        stores = [x for x in sites if x.kind == "mcall" and x.name in ("push", "insert") and any(y == ev.term for a in x.args[1:] for y in [a] + list(subterms(a)))]
+        collected = [y for r in s.returns for y in [r[0]] + list(subterms(r[0])) if y[0] == "collect" and any(z == ev.term for z in [y[2]] + list(subterms(y[2])))]
+        ok_store = (bool(stores) and all(ev.loops == st.loops for st in stores)) or bool(collected)
         rep.check(ok_store, rule, f"{f.name}/results-in-order", ev.where(), "each result is stored in the iteration in which it was computed",
-                  "result of eval_node is not pushed / inserted in the same loop iteration")
+                  "result of eval_node is not pushed / inserted / collected in the same loop iteration")
 
 
 def check_hash_iteration(prog, rep, rule):
